@@ -27,7 +27,7 @@ def gen_args(rng, kind, w_pool):
     if kind == 'complex_voltage_source': return dict(V=complex(pos(rng), -pos(rng)), Z=complex(rng.choice([0.0, pos(rng)]), 0.0))
     raise ValueError(kind)
 
-def random_circuit(rng, n_nodes=None, kinds=None, sources=None, w_pool=(0.0, 1.0, 2.0), with_ground=True):
+def random_circuit(rng, n_nodes=None, kinds=None, sources=None, w_pool=(0.0, 1.0, 2.0), with_ground=True, n_sources=None):
     """connected circuit: a resistive spanning tree (keeps every frequency well-posed) plus
     extra components of random kinds; at least one source"""
     n = n_nodes or rng.randint(2, 5)
@@ -46,7 +46,7 @@ def random_circuit(rng, n_nodes=None, kinds=None, sources=None, w_pool=(0.0, 1.0
         a, b = rng.sample(labels, 2)
         kind = rng.choice(kinds)
         comps.append(dict(kind=kind, id=idf(kind[:2], k), nodes=[a, b], args=gen_args(rng, kind, w_pool))); k += 1
-    for _ in range(rng.randint(1, 2)):
+    for _ in range(n_sources if n_sources is not None else rng.randint(1, 2)):
         a, b = rng.sample(labels, 2)
         kind = rng.choice(sources)
         args = gen_args(rng, kind, w_pool)
